@@ -11,6 +11,10 @@
 //! * [`Cff2Model`] + [`build_cff2`] — CFF2 header, Top DICT, Global Subr INDEX, CharStrings,
 //!   FDArray, optional FDSelect, optional VariationStore ([`VarStoreModel`]), Private DICTs
 //!   with `vsindex` and local Subrs;
+//! * [`CffLayout`] + [`build_cff_with`] / [`build_cff2_with`] — non-canonical but legal container
+//!   layouts (oversized offSize fields, gaps, detached local Subrs, DICT operator order, long
+//!   integer forms and reals in DICTs, extra Top/Font DICT entries, VariationStore padding);
+//!   `CffLayout::default()` reproduces `build_cff` / `build_cff2` byte for byte;
 //! * [`build_otf`] — wraps a CFF/CFF2 table in a minimal complete `OTTO` sfnt.
 //!
 //! The trailing blocks (charset, FDSelect, CharStrings, FDArray, Private DICTs, VariationStore)
@@ -216,40 +220,6 @@ pub struct PrivateModel {
     pub vsindex: Option<u16>,
 }
 
-impl PrivateModel {
-    /// (dict bytes, following bytes = gap + Subrs INDEX)
-    fn build(&self, cff2: bool, min_off_size: u8) -> (Vec<u8>, Vec<u8>) {
-        let mut d = DictBuf::new();
-        if self.with_hint_entries {
-            d.int(-15).int(15).int(450).int(12).op(dictop::BLUE_VALUES);
-            d.real("0.0375").op(dictop::BLUE_SCALE);
-            d.int(80).op(dictop::STD_HW);
-        }
-        if let Some(v) = self.vsindex {
-            if cff2 {
-                d.int(v as i32).op(dictop::VSINDEX);
-            }
-        }
-        if !cff2 {
-            if let Some(v) = self.default_width_x {
-                d.int(v).op(dictop::DEFAULT_WIDTH_X);
-            }
-            if let Some(v) = self.nominal_width_x {
-                d.int(v).op(dictop::NOMINAL_WIDTH_X);
-            }
-        }
-        let mut tail = Vec::new();
-        if let Some(s) = &self.subrs {
-            // the Subrs offset is relative to the start of the Private DICT
-            let off = d.len() + 6 + self.subrs_gap;
-            d.int5(off as i32).op(dictop::SUBRS);
-            tail.resize(self.subrs_gap, 0xAA);
-            tail.extend(index(s, cff2, min_off_size));
-        }
-        (d.0, tail)
-    }
-}
-
 /// charset of a CFF font: predefined, or the SIDs (name-keyed) / CIDs (CID-keyed) of glyphs
 /// 1..n in one of the three formats (formats 1 and 2 are compressed into ranges).
 #[derive(Clone, Debug)]
@@ -370,20 +340,10 @@ impl CffModel {
     }
 }
 
-#[derive(Clone, Copy, Debug, PartialEq, Eq, PartialOrd, Ord)]
-enum Block {
-    Charset,
-    FdSelect,
-    CharStrings,
-    FdArray,
-    VarStore,
-    Private(usize),
-}
-
 /// Deterministic permutation of the blocks chosen by `order`. A Font DICT INDEX needs the
 /// offsets of the Private DICTs and the Top DICT needs all offsets, which is no constraint on
 /// the physical order.
-fn permute(mut blocks: Vec<Block>, order: u8) -> Vec<Block> {
+fn permute<T>(mut blocks: Vec<T>, order: u8) -> Vec<T> {
     let n = blocks.len();
     let mut k = order as usize;
     let mut out = Vec::new();
@@ -392,149 +352,6 @@ fn permute(mut blocks: Vec<Block>, order: u8) -> Vec<Block> {
         k /= i.max(1);
         out.push(blocks.remove(j));
     }
-    out
-}
-
-/// Build a `CFF ` table.
-pub fn build_cff(m: &CffModel) -> Vec<u8> {
-    let os = m.min_off_size.clamp(1, 4);
-    let cid = matches!(m.kind, CffKind::Cid { .. });
-    let mut strings = m.strings.clone();
-    let ros_sids = if cid {
-        strings.push(b"Adobe".to_vec());
-        strings.push(b"Identity".to_vec());
-        Some((391 + strings.len() as i32 - 2, 391 + strings.len() as i32 - 1))
-    } else {
-        None
-    };
-
-    // ---- blocks
-    let charset = charset_bytes(&m.charset);
-    let privates: Vec<&PrivateModel> = match &m.kind {
-        CffKind::NameKeyed { private } => vec![private],
-        CffKind::Cid { fds, .. } => fds.iter().collect(),
-    };
-    let built_priv: Vec<(Vec<u8>, Vec<u8>)> = privates.iter().map(|p| p.build(false, os)).collect();
-    let charstrings = index(&m.charstrings, false, os);
-    let fd_select = match &m.kind {
-        CffKind::Cid { fd_select, fd_select_format, .. } => Some(fd_select_bytes(*fd_select_format, fd_select)),
-        _ => None,
-    };
-    // Font DICT INDEX has a fixed size: each Font DICT is `size5 offset5 Private`
-    let font_dict = |size: usize, off: usize| -> Vec<u8> {
-        let mut d = DictBuf::new();
-        d.int5(size as i32).int5(off as i32).op(dictop::PRIVATE);
-        d.0
-    };
-    let fd_array_len = if cid {
-        index(&privates.iter().map(|_| font_dict(0, 0)).collect::<Vec<_>>(), false, os).len()
-    } else {
-        0
-    };
-
-    let mut order = vec![Block::CharStrings];
-    if charset.is_some() {
-        order.push(Block::Charset);
-    }
-    if cid {
-        order.push(Block::FdSelect);
-        order.push(Block::FdArray);
-    }
-    for i in 0..privates.len() {
-        order.push(Block::Private(i));
-    }
-    let order = permute(order, m.block_order);
-
-    // ---- Top DICT (fixed size: all offsets in 5-byte form)
-    let top = |off: &dyn Fn(Block) -> usize| -> Vec<u8> {
-        let mut d = DictBuf::new();
-        if let Some((r, o)) = ros_sids {
-            d.int(r).int(o).int(0).op(dictop::ROS);
-        }
-        if let Some(bb) = m.font_bbox {
-            d.int5(bb[0]).int5(bb[1]).int5(bb[2]).int5(bb[3]).op(dictop::FONT_BBOX);
-        }
-        match &m.charset {
-            CharsetModel::IsoAdobe => {}
-            CharsetModel::Expert => {
-                d.int5(1).op(dictop::CHARSET);
-            }
-            CharsetModel::ExpertSubset => {
-                d.int5(2).op(dictop::CHARSET);
-            }
-            _ => {
-                d.int5(off(Block::Charset) as i32).op(dictop::CHARSET);
-            }
-        }
-        d.int5(off(Block::CharStrings) as i32).op(dictop::CHARSTRINGS);
-        if cid {
-            d.int5(m.charstrings.len() as i32).op(dictop::CID_COUNT);
-            d.int5(off(Block::FdArray) as i32).op(dictop::FD_ARRAY);
-            d.int5(off(Block::FdSelect) as i32).op(dictop::FD_SELECT);
-        } else {
-            d.int5(built_priv[0].0.len() as i32).int5(off(Block::Private(0)) as i32).op(dictop::PRIVATE);
-        }
-        d.0
-    };
-    let top_len = top(&|_| 0).len();
-
-    let mut b = Buf::new();
-    b.u8(1).u8(0).u8(4 + m.header_extra).u8(4);
-    for i in 0..m.header_extra {
-        b.u8(0xE0 | (i & 0xf));
-    }
-    b.bytes(&index(&[m.name.clone()], false, os));
-    let top_index_at = b.len();
-    let top_index_len = index(&[vec![0; top_len]], false, os).len();
-    b.zeros(top_index_len);
-    b.bytes(&index(&strings, false, os));
-    b.bytes(&index(&m.global_subrs, false, os));
-
-    // ---- layout
-    let size_of = |blk: Block| -> usize {
-        match blk {
-            Block::Charset => charset.as_ref().map(|c| c.len()).unwrap_or(0),
-            Block::FdSelect => fd_select.as_ref().map(|c| c.len()).unwrap_or(0),
-            Block::CharStrings => charstrings.len(),
-            Block::FdArray => fd_array_len,
-            Block::VarStore => 0,
-            Block::Private(i) => built_priv[i].0.len() + built_priv[i].1.len(),
-        }
-    };
-    let mut offsets: Vec<(Block, usize)> = Vec::new();
-    let mut at = b.len();
-    for blk in &order {
-        offsets.push((*blk, at));
-        at += size_of(*blk);
-    }
-    let off = |blk: Block| offsets.iter().find(|o| o.0 == blk).map(|o| o.1).unwrap_or(0);
-    for blk in &order {
-        debug_assert_eq!(b.len(), off(*blk));
-        match blk {
-            Block::Charset => {
-                b.bytes(charset.as_ref().unwrap());
-            }
-            Block::FdSelect => {
-                b.bytes(fd_select.as_ref().unwrap());
-            }
-            Block::CharStrings => {
-                b.bytes(&charstrings);
-            }
-            Block::FdArray => {
-                let dicts: Vec<Vec<u8>> =
-                    (0..privates.len()).map(|i| font_dict(built_priv[i].0.len(), off(Block::Private(i)))).collect();
-                b.bytes(&index(&dicts, false, os));
-            }
-            Block::VarStore => {}
-            Block::Private(i) => {
-                b.bytes(&built_priv[*i].0).bytes(&built_priv[*i].1);
-            }
-        }
-    }
-    let mut out = b.into_vec();
-    let top_index = index(&[top(&off)], false, os);
-    debug_assert_eq!(top_index.len(), top_index_len);
-    out[top_index_at..top_index_at + top_index_len].copy_from_slice(&top_index);
     out
 }
 
@@ -618,46 +435,552 @@ impl Cff2Model {
     }
 }
 
-/// Build a `CFF2` table.
-pub fn build_cff2(m: &Cff2Model) -> Vec<u8> {
-    let os = m.min_off_size.clamp(1, 4);
-    let built_priv: Vec<(Vec<u8>, Vec<u8>)> = m.fds.iter().map(|p| p.build(true, os)).collect();
-    let charstrings = index(&m.charstrings, true, os);
-    let fd_select = m.fd_select.as_ref().map(|(f, v)| fd_select_bytes(*f, v));
-    let vstore = m.vstore.as_ref().map(|v| v.cff2_bytes());
-    let font_dict = |size: usize, off: usize| -> Vec<u8> {
-        let mut d = DictBuf::new();
-        d.int5(size as i32).int5(off as i32).op(dictop::PRIVATE);
-        d.0
-    };
-    let fd_array_len = index(&m.fds.iter().map(|_| font_dict(0, 0)).collect::<Vec<_>>(), true, os).len();
+// ------------------------------------------------------------------------------------------
+// non-canonical but legal container layouts
 
-    let mut order = vec![Block::CharStrings, Block::FdArray];
+/// Layout options of a CFF / CFF2 table beyond what the models carry (`header_extra`,
+/// `min_off_size`, `block_order`, `PrivateModel::subrs_gap`). `CffLayout::default()` is the
+/// canonical layout: `build_cff_with(m, &CffLayout::default()) == build_cff(m)` byte for byte
+/// (same for CFF2). Every option yields a table a conforming reader must accept and read to
+/// the same font.
+#[derive(Clone, Debug, Default, PartialEq)]
+pub struct CffLayout {
+    /// CFF header `offSize` field (1..=4; 0 = the default 4). Raised to what the table length
+    /// needs. (CFF2 has no such field.)
+    pub header_off_size: u8,
+    /// minimal offSize per INDEX: [Name, Top DICT, String, Global Subr, CharStrings, FDArray,
+    /// local Subrs]; 0 = the model's `min_off_size`. (CFF2 uses entries 3..=6.)
+    pub index_off_size: [u8; 7],
+    /// unused bytes before the k-th trailing block (CharStrings, charset, FDSelect, FDArray,
+    /// VariationStore, Private DICTs, detached local Subrs) in physical order; cycled.
+    pub gaps: Vec<u8>,
+    /// put the local Subr INDEXes after all other blocks instead of right behind their Private
+    /// DICT (the Subrs offset is relative to the Private DICT and stays positive)
+    pub detach_local_subrs: bool,
+    /// operator order inside the Top DICT / Font DICTs / Private DICTs (0 = canonical order; a
+    /// CID Top DICT always starts with ROS)
+    pub top_dict_order: u8,
+    pub font_dict_order: u8,
+    pub private_dict_order: u8,
+    /// integer operands of DICTs that are not offsets/sizes: 0 = as in the canonical layout,
+    /// 1 = 28 form (3 bytes) where the value fits, else 29, 2 = 29 form (5 bytes),
+    /// 3 = the three forms in turn
+    pub dict_int_form: u8,
+    /// operands of type "number" (FontBBox, CIDCount, default/nominalWidthX, BlueValues, StdHW)
+    /// written as reals ("400", "-15.0")
+    pub dict_reals: bool,
+    /// additional informational Top DICT entries (version, Notice, FullName, Weight SIDs with
+    /// their strings, isFixedPitch, ItalicAngle, UnderlinePosition, UniqueID, XUID); CFF only
+    pub top_dict_extra: bool,
+    /// a FontName entry in every Font DICT of a CID-keyed CFF
+    pub font_dict_extra: bool,
+    /// CFF2: the VariationStore length field covers this many unused bytes behind the
+    /// ItemVariationStore
+    pub vstore_trailing: u8,
+    /// CFF2: unused bytes inside the ItemVariationStore before the region list and before each
+    /// ItemVariationData subtable (they are located by offsets)
+    pub ivs_gap: u8,
+    /// unused bytes at the very end of the table
+    pub trailing: u8,
+}
+
+impl CffLayout {
+    pub fn is_canonical(&self) -> bool {
+        *self == CffLayout::default()
+    }
+
+    /// A random non-canonical layout (every option has a fair chance of being used).
+    pub fn draw(dec: &mut super::type2::Dec) -> CffLayout {
+        let mut l = CffLayout::default();
+        if dec.chance(1, 2) {
+            l.header_off_size = 1 + dec.below(4) as u8;
+        }
+        if dec.chance(1, 2) {
+            for i in 0..7 {
+                l.index_off_size[i] = if dec.chance(1, 2) { 0 } else { 1 + dec.below(4) as u8 };
+            }
+        }
+        if dec.chance(1, 2) {
+            let n = 1 + dec.below(5);
+            l.gaps = (0..n).map(|_| if dec.chance(1, 3) { 0 } else { 1 + dec.below(9) as u8 }).collect();
+        }
+        l.detach_local_subrs = dec.chance(1, 3);
+        if dec.chance(1, 2) {
+            l.top_dict_order = 1 + dec.below(255) as u8;
+            l.font_dict_order = dec.below(256) as u8;
+            l.private_dict_order = 1 + dec.below(255) as u8;
+        }
+        l.dict_int_form = if dec.chance(1, 2) { 0 } else { 1 + dec.below(3) as u8 };
+        l.dict_reals = dec.chance(1, 4);
+        l.top_dict_extra = dec.chance(1, 3);
+        l.font_dict_extra = dec.chance(1, 3);
+        if dec.chance(1, 3) {
+            l.vstore_trailing = 1 + dec.below(12) as u8;
+        }
+        if dec.chance(1, 3) {
+            l.ivs_gap = 1 + dec.below(6) as u8;
+        }
+        if dec.chance(1, 4) {
+            l.trailing = 1 + dec.below(7) as u8;
+        }
+        l
+    }
+
+    fn os(&self, which: usize, model_min: u8) -> u8 {
+        let v = self.index_off_size[which];
+        if v == 0 {
+            model_min.clamp(1, 4)
+        } else {
+            v.clamp(1, 4)
+        }
+    }
+    fn gap(&self, k: usize) -> usize {
+        if self.gaps.is_empty() {
+            0
+        } else {
+            self.gaps[k % self.gaps.len()] as usize
+        }
+    }
+}
+
+/// how a numeric DICT operand is written in the canonical layout
+#[derive(Clone, Copy, PartialEq)]
+enum Dflt {
+    Shortest,
+    Five,
+}
+
+/// DICT assembled entry by entry so that the operator order can be permuted
+struct DictEntries<'l> {
+    l: &'l CffLayout,
+    entries: Vec<Vec<u8>>,
+    cur: DictBuf,
+    k: usize,
+}
+
+impl<'l> DictEntries<'l> {
+    fn new(l: &'l CffLayout) -> Self {
+        DictEntries { l, entries: Vec::new(), cur: DictBuf::new(), k: 0 }
+    }
+    /// integer-valued operand of type number / integer / SID / boolean (not an offset)
+    fn n(&mut self, v: i32, dflt: Dflt, may_be_real: bool) -> &mut Self {
+        self.k += 1;
+        if may_be_real && self.l.dict_reals {
+            let t = if self.k % 2 == 0 { format!("{}", v) } else { format!("{}.0", v) };
+            self.cur.real(&t);
+            return self;
+        }
+        let form = match self.l.dict_int_form {
+            3 => 1 + (self.k % 3) as u8, // 1, 2, or 3 (= shortest)
+            f => f,
+        };
+        match form {
+            1 if (-32768..=32767).contains(&v) => {
+                self.cur.0.push(28);
+                self.cur.0.extend_from_slice(&(v as i16).to_be_bytes());
+            }
+            1 | 2 => {
+                self.cur.int5(v);
+            }
+            3 => {
+                self.cur.int(v);
+            }
+            _ => {
+                if dflt == Dflt::Five {
+                    self.cur.int5(v);
+                } else {
+                    self.cur.int(v);
+                }
+            }
+        }
+        self
+    }
+    /// offset or size: always the 5-byte form (the layout is computed in one pass)
+    fn off(&mut self, v: usize) -> &mut Self {
+        self.cur.int5(v as i32);
+        self
+    }
+    fn real(&mut self, t: &str) -> &mut Self {
+        self.cur.real(t);
+        self
+    }
+    fn op(&mut self, o: u16) -> &mut Self {
+        self.cur.op(o);
+        self.entries.push(std::mem::take(&mut self.cur.0));
+        self
+    }
+    /// entries `0..pinned` stay in front, the rest is permuted by `order`
+    fn finish(mut self, pinned: usize, order: u8) -> Vec<u8> {
+        let rest = self.entries.split_off(pinned.min(self.entries.len()));
+        let mut out: Vec<u8> = self.entries.concat();
+        for e in permute(rest, order) {
+            out.extend(e);
+        }
+        out
+    }
+}
+
+impl PrivateModel {
+    /// Private DICT data; `subrs_off` = offset of the local Subr INDEX relative to the DICT
+    fn dict_with(&self, cff2: bool, l: &CffLayout, subrs_off: usize) -> Vec<u8> {
+        let mut d = DictEntries::new(l);
+        if self.with_hint_entries {
+            d.n(-15, Dflt::Shortest, true).n(15, Dflt::Shortest, true).n(450, Dflt::Shortest, true).n(12, Dflt::Shortest, true).op(dictop::BLUE_VALUES);
+            d.real("0.0375").op(dictop::BLUE_SCALE);
+            d.n(80, Dflt::Shortest, true).op(dictop::STD_HW);
+        }
+        if let Some(v) = self.vsindex {
+            if cff2 {
+                d.n(v as i32, Dflt::Shortest, false).op(dictop::VSINDEX);
+            }
+        }
+        if !cff2 {
+            if let Some(v) = self.default_width_x {
+                d.n(v, Dflt::Shortest, true).op(dictop::DEFAULT_WIDTH_X);
+            }
+            if let Some(v) = self.nominal_width_x {
+                d.n(v, Dflt::Shortest, true).op(dictop::NOMINAL_WIDTH_X);
+            }
+        }
+        if self.subrs.is_some() {
+            d.off(subrs_off).op(dictop::SUBRS);
+        }
+        d.finish(0, l.private_dict_order)
+    }
+}
+
+impl VarStoreModel {
+    /// ItemVariationStore with `gap` unused bytes before the region list and before each
+    /// ItemVariationData subtable.
+    pub fn item_variation_store_with(&self, gap: usize) -> Vec<u8> {
+        let mut b = Buf::new();
+        let header = 2 + 4 + 2 + 4 * self.data.len();
+        b.u16(1).u32((header + gap) as u32).u16(self.data.len() as u16);
+        let region_list_len = 4 + self.regions.len() * self.axis_count as usize * 6;
+        let mut at = header + gap + region_list_len;
+        for d in &self.data {
+            at += gap;
+            b.u32(at as u32);
+            at += 6 + 2 * d.len();
+        }
+        b.bytes(&vec![0xEE; gap]);
+        b.u16(self.axis_count).u16(self.regions.len() as u16);
+        for r in &self.regions {
+            for a in 0..self.axis_count as usize {
+                let t = r.get(a).copied().unwrap_or([0, 0, 0]);
+                b.i16(t[0]).i16(t[1]).i16(t[2]);
+            }
+        }
+        for d in &self.data {
+            b.bytes(&vec![0xEE; gap]);
+            b.u16(0).u16(0).u16(d.len() as u16);
+            for r in d {
+                b.u16(*r);
+            }
+        }
+        b.into_vec()
+    }
+}
+
+#[derive(Clone, Copy, Debug, PartialEq, Eq)]
+enum Blk {
+    Charset,
+    FdSelect,
+    CharStrings,
+    FdArray,
+    VarStore,
+    Private(usize),
+    Subrs(usize),
+}
+
+struct Placed {
+    order: Vec<Blk>,
+    offsets: Vec<(Blk, usize)>,
+    end: usize,
+}
+
+fn place(start: usize, order: Vec<Blk>, size_of: &dyn Fn(Blk) -> usize, l: &CffLayout) -> Placed {
+    let mut offsets = Vec::new();
+    let mut at = start;
+    for (k, blk) in order.iter().enumerate() {
+        at += l.gap(k);
+        offsets.push((*blk, at));
+        at += size_of(*blk);
+    }
+    Placed { order, offsets, end: at }
+}
+
+impl Placed {
+    fn off(&self, b: Blk) -> usize {
+        self.offsets.iter().find(|o| o.0 == b).map(|o| o.1).unwrap_or(0)
+    }
+}
+
+/// Build a `CFF ` table (canonical layout).
+pub fn build_cff(m: &CffModel) -> Vec<u8> {
+    build_cff_with(m, &CffLayout::default())
+}
+
+/// Build a `CFF ` table with a non-canonical but legal layout.
+pub fn build_cff_with(m: &CffModel, l: &CffLayout) -> Vec<u8> {
+    let mos = m.min_off_size;
+    let cid = matches!(m.kind, CffKind::Cid { .. });
+    let mut strings = m.strings.clone();
+    let extra_sids = if l.top_dict_extra {
+        let base = 391 + strings.len() as i32;
+        for t in [&b"001.007"[..], b"Generated for verification", b"Verif C18 Full", b"Verif C18", b"Regular"] {
+            strings.push(t.to_vec());
+        }
+        Some(base)
+    } else {
+        None
+    };
+    let ros_sids = if cid {
+        strings.push(b"Adobe".to_vec());
+        strings.push(b"Identity".to_vec());
+        Some((391 + strings.len() as i32 - 2, 391 + strings.len() as i32 - 1))
+    } else {
+        None
+    };
+    let font_name_sid = if cid && l.font_dict_extra {
+        strings.push(b"VerifC18-FD".to_vec());
+        Some(391 + strings.len() as i32 - 1)
+    } else {
+        None
+    };
+
+    // ---- blocks
+    let charset = charset_bytes(&m.charset);
+    let privates: Vec<&PrivateModel> = match &m.kind {
+        CffKind::NameKeyed { private } => vec![private],
+        CffKind::Cid { fds, .. } => fds.iter().collect(),
+    };
+    let priv_len: Vec<usize> = privates.iter().map(|p| p.dict_with(false, l, 0).len()).collect();
+    let subrs: Vec<Option<Vec<u8>>> = privates.iter().map(|p| p.subrs.as_ref().map(|s| index(s, false, l.os(6, mos)))).collect();
+    let charstrings = index(&m.charstrings, false, l.os(4, mos));
+    let fd_select = match &m.kind {
+        CffKind::Cid { fd_select, fd_select_format, .. } => Some(fd_select_bytes(*fd_select_format, fd_select)),
+        _ => None,
+    };
+    let font_dict = |size: usize, off: usize| -> Vec<u8> {
+        let mut d = DictEntries::new(l);
+        if let Some(s) = font_name_sid {
+            d.n(s, Dflt::Shortest, false).op(dictop::FONT_NAME);
+        }
+        d.off(size).off(off).op(dictop::PRIVATE);
+        d.finish(0, l.font_dict_order)
+    };
+    let fd_array_len = if cid { index(&privates.iter().map(|_| font_dict(0, 0)).collect::<Vec<_>>(), false, l.os(5, mos)).len() } else { 0 };
+
+    let mut order = vec![Blk::CharStrings];
+    if charset.is_some() {
+        order.push(Blk::Charset);
+    }
+    if cid {
+        order.push(Blk::FdSelect);
+        order.push(Blk::FdArray);
+    }
+    for i in 0..privates.len() {
+        order.push(Blk::Private(i));
+    }
+    let mut order = permute(order, m.block_order);
+    if l.detach_local_subrs {
+        for i in 0..privates.len() {
+            if subrs[i].is_some() {
+                order.push(Blk::Subrs(i));
+            }
+        }
+    }
+
+    // ---- Top DICT (fixed size: offsets in 5-byte form)
+    let top = |off: &dyn Fn(Blk) -> usize| -> Vec<u8> {
+        let mut d = DictEntries::new(l);
+        let mut pinned = 0;
+        if let Some((r, o)) = ros_sids {
+            d.n(r, Dflt::Shortest, false).n(o, Dflt::Shortest, false).n(0, Dflt::Shortest, false).op(dictop::ROS);
+            pinned = 1;
+        }
+        if let Some(base) = extra_sids {
+            d.n(base, Dflt::Shortest, false).op(dictop::VERSION);
+            d.n(base + 1, Dflt::Shortest, false).op(dictop::NOTICE);
+            d.n(base + 2, Dflt::Shortest, false).op(dictop::FULL_NAME);
+            d.n(base + 3, Dflt::Shortest, false).op(dictop::FAMILY_NAME);
+            d.n(base + 4, Dflt::Shortest, false).op(dictop::WEIGHT);
+            d.n(0, Dflt::Shortest, false).op(0x0c01); // isFixedPitch
+            d.real("-12.5").op(0x0c02); // ItalicAngle
+            d.n(-120, Dflt::Shortest, true).op(0x0c03); // UnderlinePosition
+            d.n(4_000_123, Dflt::Shortest, false).op(13); // UniqueID
+            d.n(1, Dflt::Shortest, false).n(2, Dflt::Shortest, false).n(70000, Dflt::Shortest, false).op(14); // XUID
+        }
+        if let Some(bb) = m.font_bbox {
+            d.n(bb[0], Dflt::Five, true).n(bb[1], Dflt::Five, true).n(bb[2], Dflt::Five, true).n(bb[3], Dflt::Five, true).op(dictop::FONT_BBOX);
+        }
+        match &m.charset {
+            CharsetModel::IsoAdobe => {}
+            CharsetModel::Expert => {
+                d.off(1).op(dictop::CHARSET);
+            }
+            CharsetModel::ExpertSubset => {
+                d.off(2).op(dictop::CHARSET);
+            }
+            _ => {
+                d.off(off(Blk::Charset)).op(dictop::CHARSET);
+            }
+        }
+        d.off(off(Blk::CharStrings)).op(dictop::CHARSTRINGS);
+        if cid {
+            d.n(m.charstrings.len() as i32, Dflt::Five, true).op(dictop::CID_COUNT);
+            d.off(off(Blk::FdArray)).op(dictop::FD_ARRAY);
+            d.off(off(Blk::FdSelect)).op(dictop::FD_SELECT);
+        } else {
+            d.off(priv_len[0]).off(off(Blk::Private(0))).op(dictop::PRIVATE);
+        }
+        d.finish(pinned, l.top_dict_order)
+    };
+    let top_len = top(&|_| 0).len();
+
+    let mut b = Buf::new();
+    b.u8(1).u8(0).u8(4 + m.header_extra).u8(4);
+    for i in 0..m.header_extra {
+        b.u8(0xE0 | (i & 0xf));
+    }
+    b.bytes(&index(&[m.name.clone()], false, l.os(0, mos)));
+    let top_index_at = b.len();
+    let top_index_len = index(&[vec![0; top_len]], false, l.os(1, mos)).len();
+    b.zeros(top_index_len);
+    b.bytes(&index(&strings, false, l.os(2, mos)));
+    b.bytes(&index(&m.global_subrs, false, l.os(3, mos)));
+
+    // ---- layout
+    let attached = |i: usize| -> usize {
+        if l.detach_local_subrs {
+            0
+        } else {
+            subrs[i].as_ref().map(|s| privates[i].subrs_gap + s.len()).unwrap_or(0)
+        }
+    };
+    let size_of = |blk: Blk| -> usize {
+        match blk {
+            Blk::Charset => charset.as_ref().map(|c| c.len()).unwrap_or(0),
+            Blk::FdSelect => fd_select.as_ref().map(|c| c.len()).unwrap_or(0),
+            Blk::CharStrings => charstrings.len(),
+            Blk::FdArray => fd_array_len,
+            Blk::VarStore => 0,
+            Blk::Private(i) => priv_len[i] + attached(i),
+            Blk::Subrs(i) => subrs[i].as_ref().map(|s| s.len()).unwrap_or(0),
+        }
+    };
+    let pl = place(b.len(), order, &size_of, l);
+    let subrs_off = |i: usize| -> usize {
+        if l.detach_local_subrs {
+            pl.off(Blk::Subrs(i)).saturating_sub(pl.off(Blk::Private(i)))
+        } else {
+            priv_len[i] + privates[i].subrs_gap
+        }
+    };
+    for (k, blk) in pl.order.iter().enumerate() {
+        b.bytes(&vec![0x5A; l.gap(k)]);
+        debug_assert_eq!(b.len(), pl.off(*blk));
+        match blk {
+            Blk::Charset => {
+                b.bytes(charset.as_ref().unwrap());
+            }
+            Blk::FdSelect => {
+                b.bytes(fd_select.as_ref().unwrap());
+            }
+            Blk::CharStrings => {
+                b.bytes(&charstrings);
+            }
+            Blk::FdArray => {
+                let dicts: Vec<Vec<u8>> = (0..privates.len()).map(|i| font_dict(priv_len[i], pl.off(Blk::Private(i)))).collect();
+                b.bytes(&index(&dicts, false, l.os(5, mos)));
+            }
+            Blk::VarStore => {}
+            Blk::Private(i) => {
+                let d = privates[*i].dict_with(false, l, subrs_off(*i));
+                debug_assert_eq!(d.len(), priv_len[*i]);
+                b.bytes(&d);
+                if !l.detach_local_subrs {
+                    if let Some(s) = &subrs[*i] {
+                        b.bytes(&vec![0xAA; privates[*i].subrs_gap]).bytes(s);
+                    }
+                }
+            }
+            Blk::Subrs(i) => {
+                b.bytes(subrs[*i].as_ref().unwrap());
+            }
+        }
+    }
+    debug_assert_eq!(b.len(), pl.end);
+    b.bytes(&vec![0x5B; l.trailing as usize]);
+    let mut out = b.into_vec();
+    let top_index = index(&[top(&|blk| pl.off(blk))], false, l.os(1, mos));
+    debug_assert_eq!(top_index.len(), top_index_len);
+    out[top_index_at..top_index_at + top_index_len].copy_from_slice(&top_index);
+    // header offSize: what absolute offsets into this table need, or more
+    let need = off_size_for(out.len(), 1);
+    out[3] = if l.header_off_size == 0 { 4 } else { l.header_off_size.clamp(1, 4).max(need) };
+    out
+}
+
+/// Build a `CFF2` table (canonical layout).
+pub fn build_cff2(m: &Cff2Model) -> Vec<u8> {
+    build_cff2_with(m, &CffLayout::default())
+}
+
+/// Build a `CFF2` table with a non-canonical but legal layout.
+pub fn build_cff2_with(m: &Cff2Model, l: &CffLayout) -> Vec<u8> {
+    let mos = m.min_off_size;
+    let priv_len: Vec<usize> = m.fds.iter().map(|p| p.dict_with(true, l, 0).len()).collect();
+    let subrs: Vec<Option<Vec<u8>>> = m.fds.iter().map(|p| p.subrs.as_ref().map(|s| index(s, true, l.os(6, mos)))).collect();
+    let charstrings = index(&m.charstrings, true, l.os(4, mos));
+    let fd_select = m.fd_select.as_ref().map(|(f, v)| fd_select_bytes(*f, v));
+    let vstore = m.vstore.as_ref().map(|v| {
+        let ivs = v.item_variation_store_with(l.ivs_gap as usize);
+        let mut b = Buf::new();
+        b.u16((ivs.len() + l.vstore_trailing as usize) as u16).bytes(&ivs).bytes(&vec![0xEF; l.vstore_trailing as usize]);
+        b.into_vec()
+    });
+    let font_dict = |size: usize, off: usize| -> Vec<u8> {
+        let mut d = DictEntries::new(l);
+        d.off(size).off(off).op(dictop::PRIVATE);
+        d.finish(0, l.font_dict_order)
+    };
+    let fd_array_len = index(&m.fds.iter().map(|_| font_dict(0, 0)).collect::<Vec<_>>(), true, l.os(5, mos)).len();
+
+    let mut order = vec![Blk::CharStrings, Blk::FdArray];
     if fd_select.is_some() {
-        order.push(Block::FdSelect);
+        order.push(Blk::FdSelect);
     }
     if vstore.is_some() {
-        order.push(Block::VarStore);
+        order.push(Blk::VarStore);
     }
     for i in 0..m.fds.len() {
-        order.push(Block::Private(i));
+        order.push(Blk::Private(i));
     }
-    let order = permute(order, m.block_order);
-
-    let top = |off: &dyn Fn(Block) -> usize| -> Vec<u8> {
-        let mut d = DictBuf::new();
-        if m.font_matrix {
-            d.real("0.001").int(0).int(0).real("0.001").int(0).int(0).op(dictop::FONT_MATRIX);
+    let mut order = permute(order, m.block_order);
+    if l.detach_local_subrs {
+        for i in 0..m.fds.len() {
+            if subrs[i].is_some() {
+                order.push(Blk::Subrs(i));
+            }
         }
-        d.int5(off(Block::CharStrings) as i32).op(dictop::CHARSTRINGS);
-        d.int5(off(Block::FdArray) as i32).op(dictop::FD_ARRAY);
+    }
+
+    let top = |off: &dyn Fn(Blk) -> usize| -> Vec<u8> {
+        let mut d = DictEntries::new(l);
+        if m.font_matrix {
+            d.real("0.001").n(0, Dflt::Shortest, true).n(0, Dflt::Shortest, true).real("0.001").n(0, Dflt::Shortest, true).n(0, Dflt::Shortest, true).op(dictop::FONT_MATRIX);
+        }
+        d.off(off(Blk::CharStrings)).op(dictop::CHARSTRINGS);
+        d.off(off(Blk::FdArray)).op(dictop::FD_ARRAY);
         if fd_select.is_some() {
-            d.int5(off(Block::FdSelect) as i32).op(dictop::FD_SELECT);
+            d.off(off(Blk::FdSelect)).op(dictop::FD_SELECT);
         }
         if vstore.is_some() {
-            d.int5(off(Block::VarStore) as i32).op(dictop::VSTORE);
+            d.off(off(Blk::VarStore)).op(dictop::VSTORE);
         }
-        d.0
+        d.finish(0, l.top_dict_order)
     };
     let top_len = top(&|_| 0).len();
     let mut b = Buf::new();
@@ -667,50 +990,70 @@ pub fn build_cff2(m: &Cff2Model) -> Vec<u8> {
     }
     let top_at = b.len();
     b.zeros(top_len);
-    b.bytes(&index(&m.global_subrs, true, os));
+    b.bytes(&index(&m.global_subrs, true, l.os(3, mos)));
 
-    let size_of = |blk: Block| -> usize {
-        match blk {
-            Block::Charset => 0,
-            Block::FdSelect => fd_select.as_ref().map(|c| c.len()).unwrap_or(0),
-            Block::CharStrings => charstrings.len(),
-            Block::FdArray => fd_array_len,
-            Block::VarStore => vstore.as_ref().map(|c| c.len()).unwrap_or(0),
-            Block::Private(i) => built_priv[i].0.len() + built_priv[i].1.len(),
+    let attached = |i: usize| -> usize {
+        if l.detach_local_subrs {
+            0
+        } else {
+            subrs[i].as_ref().map(|s| m.fds[i].subrs_gap + s.len()).unwrap_or(0)
         }
     };
-    let mut offsets: Vec<(Block, usize)> = Vec::new();
-    let mut at = b.len();
-    for blk in &order {
-        offsets.push((*blk, at));
-        at += size_of(*blk);
-    }
-    let off = |blk: Block| offsets.iter().find(|o| o.0 == blk).map(|o| o.1).unwrap_or(0);
-    for blk in &order {
-        debug_assert_eq!(b.len(), off(*blk));
+    let size_of = |blk: Blk| -> usize {
         match blk {
-            Block::Charset => {}
-            Block::FdSelect => {
+            Blk::Charset => 0,
+            Blk::FdSelect => fd_select.as_ref().map(|c| c.len()).unwrap_or(0),
+            Blk::CharStrings => charstrings.len(),
+            Blk::FdArray => fd_array_len,
+            Blk::VarStore => vstore.as_ref().map(|c| c.len()).unwrap_or(0),
+            Blk::Private(i) => priv_len[i] + attached(i),
+            Blk::Subrs(i) => subrs[i].as_ref().map(|s| s.len()).unwrap_or(0),
+        }
+    };
+    let pl = place(b.len(), order, &size_of, l);
+    let subrs_off = |i: usize| -> usize {
+        if l.detach_local_subrs {
+            pl.off(Blk::Subrs(i)).saturating_sub(pl.off(Blk::Private(i)))
+        } else {
+            priv_len[i] + m.fds[i].subrs_gap
+        }
+    };
+    for (k, blk) in pl.order.iter().enumerate() {
+        b.bytes(&vec![0x5A; l.gap(k)]);
+        debug_assert_eq!(b.len(), pl.off(*blk));
+        match blk {
+            Blk::Charset => {}
+            Blk::FdSelect => {
                 b.bytes(fd_select.as_ref().unwrap());
             }
-            Block::CharStrings => {
+            Blk::CharStrings => {
                 b.bytes(&charstrings);
             }
-            Block::FdArray => {
-                let dicts: Vec<Vec<u8>> =
-                    (0..m.fds.len()).map(|i| font_dict(built_priv[i].0.len(), off(Block::Private(i)))).collect();
-                b.bytes(&index(&dicts, true, os));
+            Blk::FdArray => {
+                let dicts: Vec<Vec<u8>> = (0..m.fds.len()).map(|i| font_dict(priv_len[i], pl.off(Blk::Private(i)))).collect();
+                b.bytes(&index(&dicts, true, l.os(5, mos)));
             }
-            Block::VarStore => {
+            Blk::VarStore => {
                 b.bytes(vstore.as_ref().unwrap());
             }
-            Block::Private(i) => {
-                b.bytes(&built_priv[*i].0).bytes(&built_priv[*i].1);
+            Blk::Private(i) => {
+                let d = m.fds[*i].dict_with(true, l, subrs_off(*i));
+                debug_assert_eq!(d.len(), priv_len[*i]);
+                b.bytes(&d);
+                if !l.detach_local_subrs {
+                    if let Some(s) = &subrs[*i] {
+                        b.bytes(&vec![0xAA; m.fds[*i].subrs_gap]).bytes(s);
+                    }
+                }
+            }
+            Blk::Subrs(i) => {
+                b.bytes(subrs[*i].as_ref().unwrap());
             }
         }
     }
+    b.bytes(&vec![0x5B; l.trailing as usize]);
     let mut out = b.into_vec();
-    let t = top(&off);
+    let t = top(&|blk| pl.off(blk));
     out[top_at..top_at + top_len].copy_from_slice(&t);
     out
 }
